@@ -470,7 +470,7 @@ static int dr_stream_get_buffered_data(sqfs_istream_t *base,
 	} else {
 		ret = precache_fragment_block(rd, stream->frag_idx);
 		if (ret)
-			return ret;
+			goto fail;
 
 		if (rd->frag_blk_size < stream->frag_off ||
 		    (rd->frag_blk_size - stream->frag_off) < stream->buf_used) {
